@@ -23,12 +23,14 @@ def marshalGuarded : Bool := covers (caughtAt "marshal.load") marshalExc
 
 /-- the statement order the model transcribes: read magic, compare, unpickle the checksum, compare, unmarshal; and
     the writer emits the parts in the order the loader reads them; `get_bucket` computes the checksum from the current
-    source and `BaseLoader.load` compiles exactly when the bucket came back empty -/
+    source and `BaseLoader.load` compiles exactly when the bucket came back empty; the checksum is the SHA-1 of the whole unmodified source (the
+    injectivity hypothesis of `history_fresh` is SHA-1's, not weakened by any normalisation) -/
 theorem load_shape :
     loadSteps = [.readMagic, .checkMagic, .loadChecksum (caughtAt "pickle.load"), .checkChecksum,
                  .loadCode (caughtAt "marshal.load")] ∧
     writeParts = ["magic", "checksum", "code"] ∧ checksumInputs = ["source"] ∧ getBucketShape = true ∧
-    setBucketDumps = true ∧ loaderLoadShape = true ∧ clearUsesPattern = true := by decide
+    setBucketDumps = true ∧ loaderLoadShape = true ∧ clearUsesPattern = true ∧
+    checksumIsSha1OfWholeSource = true ∧ keyIsSha1OfNameAndFilename = true := by decide
 
 /-! ### load_total -/
 
